@@ -2,7 +2,7 @@
 
 class Prop:
     def __init__(self, pid, harness, entries, props_file, quick_n, thorough_n, trusted=None, assumptions=None,
-                 rule='', design_ref='', extra=None, harness_timeout=900, spec_entries=None, search_n=None, confirm_slow=False, props_files=None):
+                 rule='', design_ref='', extra=None, harness_timeout=900, spec_entries=None, search_n=None, confirm_slow=False, props_files=None, monitor_prefixes=None):
         self.id = pid
         self.harness = harness
         self.entries = entries
@@ -17,6 +17,7 @@ class Prop:
         self.harness_timeout = harness_timeout
         self.spec_entries = spec_entries or []   # entries whose model IS the property's reference spec: a mismatch is a violation
         self.confirm_slow = confirm_slow
+        self.monitor_prefixes = monitor_prefixes
         self.props_files = props_files
         self.search_n = search_n                 # harness size used to search for a failing input when something broke
 
